@@ -2,6 +2,7 @@
    time layouts.  This file contains statements only; every proof is
    [exact lemma]. *)
 From V Require Import Model.Flags Proofs.FlagsProofs Gen.Octets Proofs.OctetTables.
+From V Require Import Model.SmppTime Spec.SmppTimeSpec Proofs.SmppTimeProofs.
 Open Scope N_scope.
 
 (* esm_class: decode then encode is the identity on all 256 octets (model) *)
@@ -41,5 +42,93 @@ Proof. exact (conj ifver_table_complete ifver_code_roundtrip). Qed.
 
 (* non-vacuity: a non-trivial octet exercises every field *)
 Example C20_esm_example : esm_of_byte 195 = {| e_mode := 3; e_type := 0; e_udhi := true; e_reply := true |}
-  /\ In (195, (3, 0, true, true), 195) esm_table.
-Proof. split; [reflexivity | vm_compute; tauto]. Qed.
+  /\ nth_error esm_table 195 = Some (195, (3, 0, true, true), 195).
+Proof. split; vm_compute; reflexivity. Qed.
+
+(* ======================================================================== *)
+(* The time half: pdu.Time ("YYMMDDhhmmsstnnp") and pdu.Duration
+   ("YYMMDDhhmmsst00R").  [time_parse]/[time_format]/[dur_parse]/[dur_format]
+   (Model/SmppTime.v) are the models of Time.From / Time.String /
+   Duration.From / Duration.String; [valid_abs_time], [abs_denotes],
+   [valid_rel_time], [rel_denotes], [neg_zero_offset] (Spec/SmppTimeSpec.v)
+   are written from SMPP v5 4.7.23.4/5.  An absolute time value is (t, q):
+   t = tenths of a second since 2000-01-01T00:00:00Z, q = zone offset in
+   quarter hours; a period is a number of tenths of a second.  Strings are
+   lists of octets. *)
+Local Open Scope Z_scope.
+
+(* Formatting then parsing returns the same instant and the same offset, for
+   EVERY instant at 0.1 s resolution and EVERY quarter-hour offset within
+   +-12 h such that the local civil time in that zone lies in
+   2000-01-01T00:00:00.0 .. 2099-12-31T23:59:59.9 (36,525 days; the two-digit
+   year is the local year).  The string produced is a valid 16-character
+   absolute time of the standard and denotes exactly (t, q). *)
+Theorem C20_time_fmt_parse : forall t q : Z,
+  -48 <= q <= 48 -> 0 <= t + q * 9000 < 36525 * 864000 ->
+  exists s, time_format (t, q) = Ok s /\ List.length s = 16%nat /\ valid_abs_time s = true /\
+            abs_denotes s = Some (t, q) /\ time_parse s = Ok (t, q).
+Proof. exact (fun t q Hq Hl => time_fmt_parse t q (conj Hq Hl)). Qed.
+
+(* Parsing then formatting returns the same 16 characters, for EVERY valid
+   absolute time string (fifteen digits, real calendar date of 2000..2099,
+   hh <= 23, mm <= 59, ss <= 59, nn <= 48, sign + or -) except exactly the
+   class of the known finding D29 (nn = 00 written with "-"); the value parsed
+   is the one the standard says the string denotes. *)
+Theorem C20_time_parse_fmt : forall s : list N,
+  valid_abs_time s = true -> neg_zero_offset s = false ->
+  exists v, time_parse s = Ok v /\ abs_denotes s = Some v /\ time_domain (fst v) (snd v) /\ time_format v = Ok s.
+Proof. exact time_parse_fmt. Qed.
+
+(* The full-strength statement (without the exclusion) is FALSE of the faithful
+   model; the witness "020610233429000-" replayed on the implementation is D29. *)
+Theorem C20_time_neg_zero_refuted :
+  exists s, valid_abs_time s = true /\
+            exists v s', time_parse s = Ok v /\ time_format v = Ok s' /\ s' <> s.
+Proof. exact time_neg_zero_refuted. Qed.
+(* ... and the excluded class is exactly as wide as the defect: every valid
+   string with nn = 00 and "-" comes back with "+" and is otherwise unchanged *)
+Theorem C20_time_neg_zero_class : forall s : list N,
+  valid_abs_time s = true -> neg_zero_offset s = true ->
+  exists v s', time_parse s = Ok v /\ time_format v = Ok s' /\ s' = firstn 15 s ++ [sym_plus] /\ s' <> s.
+Proof. exact time_neg_zero_class. Qed.
+
+(* Formatting then parsing a relative period returns the same duration, for
+   EVERY multiple of 0.1 s from 1 s to just under 100 * 8760 h. *)
+Theorem C20_duration : forall d : Z,
+  10 <= d < 100 * 8760 * 36000 ->
+  exists s, dur_format d = Ok s /\ List.length s = 16%nat /\ valid_rel_time s = true /\
+            rel_denotes s = Some d /\ dur_parse s = Ok d.
+Proof. exact dur_fmt_parse. Qed.
+
+(* Rejected strings: Time.From / Duration.From never panic (the length test
+   guards the slice expressions), accept exactly "" and sixteen octets ending
+   in the right symbol, and every rejection is ErrUnparseableTime. *)
+Theorem C20_time_parse_total : forall s : list N,
+  time_parse s <> Panic /\ dur_parse s <> Panic /\
+  is_ok (time_parse s) = accepted_shape [ch_plus; ch_minus] s /\
+  is_ok (dur_parse s) = accepted_shape [ch_R] s /\
+  (forall e, time_parse s = Err e -> e = EDecode).
+Proof.
+  exact (fun s => conj (time_parse_no_panic s) (conj (dur_parse_no_panic s)
+          (conj (time_parse_accepts s) (conj (dur_parse_accepts s) (time_parse_err s))))).
+Qed.
+
+(* A domain fact (not a finding): the two-digit year is the local year, so
+   an instant whose local civil time falls in the day before 2000-01-01 or in
+   the day after 2099-12-31 -- in particular instants of 2000..2099 within
+   12 h of either end, seen from a suitable zone -- has no valid 16-character
+   form: the domain of C20_time_fmt_parse cannot be extended at its edges. *)
+Theorem C20_time_domain_edge : forall t q : Z,
+  -48 <= q <= 48 ->
+  (-864000 <= t + q * 9000 < 0 \/ 36525 * 864000 <= t + q * 9000 < 36526 * 864000) ->
+  exists s, time_format (t, q) = Ok s /\ valid_abs_time s = false.
+Proof. exact time_domain_edge. Qed.
+
+(* non-vacuity: "991231235959948-" is valid, is not in the excluded class and denotes
+   2100-01-01T11:59:59.9Z at -48 quarter hours; 875043 h 34 min 29 s is a period in range *)
+Example C20_time_example :
+  let s := [57; 57; 49; 50; 51; 49; 50; 51; 53; 57; 53; 57; 57; 52; 56; 45]%N in
+  valid_abs_time s = true /\ neg_zero_offset s = false /\
+  time_parse s = Ok (31557599999 + 48 * 9000, -48) /\ time_format (31557599999 + 48 * 9000, -48) = Ok s /\
+  dur_format 31501568690 = Ok [57; 57; 49; 48; 50; 53; 48; 51; 51; 52; 50; 57; 48; 48; 48; 82]%N.
+Proof. vm_compute. repeat split. Qed.
